@@ -315,11 +315,20 @@ def split_top(s):
 
 
 # ------------------------------------------------------------------ running cases
-def run_lines(exe, lines, timeout=1200, shards=1):
+def run_lines(exe, lines, timeout=600, shards=1):
     if not lines:
         return []
     if shards <= 1 or len(lines) < 64:
-        rc, out, err, _ = sh([exe], inp="\n".join(lines) + "\n", timeout=timeout)
+        try:
+            rc, out, err, _ = sh([exe], inp="\n".join(lines) + "\n", timeout=timeout)
+        except subprocess.TimeoutExpired:
+            # never hang: the cases of this shard are run one by one, a case that does not finish is an observation
+            if len(lines) == 1:
+                return ['(VS "harness-timeout")']
+            res = []
+            for ln in lines:
+                res += run_lines(exe, [ln], 60, 1)
+            return res
         res = out.split("\n")
         if res and res[-1] == "":
             res.pop()
